@@ -99,7 +99,7 @@ partial def loop (hin hout : IO.FS.Stream) (c : CaseSt) : IO Unit := do
             let refOf (t : Option String) : Option Nat := t.bind (fun t => if t.startsWith "@" then (t.drop 1).toString.toNat? else none)
             let refA := refOf toks[6]?
             let refB := if refA.isSome then refOf toks[7]? else refOf (toks.toList.getLast?)
-            setRun c kn (fun r => { r with req := some rq, refA := refA, refB := refB })
+            setRun c kn (fun r => { r with req := some rq, refA := refA, refB := refB, modelAns := ans })
           | none => c
         | some kn, some "SUBDIV" =>
           let toks := (reqS.splitOn " ").filter (· ≠ "") |>.toArray
@@ -112,7 +112,7 @@ partial def loop (hin hout : IO.FS.Stream) (c : CaseSt) : IO Unit := do
             let b ← mpoly
             pure { ar := ar, prec := prec, op := o, cfg := { dbg := dbg, budget := budget }, pairing := "MM", a := a, b := b }
           match p { toks := toks, pos := 1 } with
-          | some (rq, _) => setRun c kn (fun r => { r with req := some rq })
+          | some (rq, _) => setRun c kn (fun r => { r with req := some rq, modelAns := ans })
           | none => c
         | some kn, some "FILLQ" =>
           let toks := (reqS.splitOn " ").filter (· ≠ "") |>.toArray
@@ -135,6 +135,15 @@ partial def loop (hin hout : IO.FS.Stream) (c : CaseSt) : IO Unit := do
       let c := match k.toNat? with
         | some kn => setRun c kn (fun r => { r with implRaw := raw, implOut := parseImplMP raw })
         | none => c
+      -- answers differ: was the run inside the modelled numeric range?
+      match k.toNat?.bind (fun kn => c.runs[kn]?) with
+      | some r =>
+        match r.req with
+        | some rq =>
+          if r.modelAns ≠ "" && r.modelAns ≠ raw && !r.modelAns.startsWith "SKIP" && Run.probeExtreme rq then
+            hout.putStrLn s!"RANGE {k} extreme-coordinate-created-by-the-sweep"
+        | none => pure ()
+      | none => pure ()
       loop hin hout c
     | [] => loop hin hout c
   else if line.startsWith "CHECK " then
